@@ -1,6 +1,7 @@
 import Swat4.Lemmas.StoreRefine
 import Swat4.Lemmas.StoreDrv
 import Swat4.Lemmas.QueueRefine
+import Swat4.Lemmas.StoreDrvReads
 /-!
 # C11 — The registry behaves as a versioned map with exact query predicates
 
@@ -453,5 +454,432 @@ resolver is not consulted at all — the caller's record is stored at version + 
 example : (demoState.add 9 demoServer (fun _ => none)).2 = .error .serverExists ∧
     (demoState.update 9 { demoServer with version := 1 } (fun _ => none)).2 = .ok { demoServer with version := 2 } := by
   constructor <;> simp [demoState, AbsState.add, AbsState.update, AbsState.getRow, AbsState.save, demoServer]
+
+end Swat4.C11
+
+/-! # Additions (review round 2): the prose sub-clauses of `add` / `update` / `remove` as theorems
+
+The property text says, clause by clause, what a write does.  Until now those clauses existed only as the *definitions*
+`AbsState.add / update / remove` (`Spec/Registry.lean`) the refinement theorems point at.  The theorems below state each
+clause as an equation on the specification — exactly as the specification behaves, quirks included — and, through
+`add_refines / update_refines / remove_refines`, as a statement about the Redis-level writer machine: hypotheses on the
+*store* (`st.items[key]?`), conclusion about the machine's reply and the store it leaves. -/
+namespace Swat4.C11
+open Swat4 Swat4.RStore Std
+
+/-- what `save` stores: the record with `version + 1`, under the record's own address, with update time `now` -/
+def stored (svr : Server) : Server := { svr with version := svr.version + 1 }
+
+/-- the state after `save`: only the registry row of the record's address changes (instances, queue, id counter are
+untouched); it now holds `stored svr` with update time `now` -/
+theorem save_eq (a : AbsState) (now : Int) (svr : Server) :
+    a.save now svr = ({ a with servers := a.servers.insert svr.addr.key ⟨stored svr, now⟩ }, stored svr) := rfl
+
+/-- rows after `save`, by key: the saved address holds the new row, every other key is as before -/
+theorem save_row (a : AbsState) (now : Int) (svr : Server) (k : Nat) :
+    (a.save now svr).1.servers[k]? = if svr.addr.key = k then some ⟨stored svr, now⟩ else a.servers[k]? := by
+  rw [save_eq]
+  show (a.servers.insert svr.addr.key ⟨stored svr, now⟩)[k]? = _
+  simp only [ExtTreeMap.getElem?_insert, compare_eq_iff_eq]
+
+/-- the row of an address at the Redis level, read through the abstraction relation -/
+theorem rel_getRow {st : RStore} {a : AbsState} (hrel : Rel st a) (ad : Addr) :
+    a.getRow ad = (st.items[ad.key]?).map fun r => (⟨r, (st.updated[ad.key]?).getD 0⟩ : SRow) :=
+  hrel.servers ad.key
+
+theorem rel_getRow_none {st : RStore} {a : AbsState} (hrel : Rel st a) (ad : Addr) (h : st.items[ad.key]? = none) :
+    a.getRow ad = none := by
+  rw [rel_getRow hrel, h]; rfl
+
+theorem rel_getRow_some {st : RStore} {a : AbsState} (hrel : Rel st a) (ad : Addr) (r : Server)
+    (h : st.items[ad.key]? = some r) : a.getRow ad = some ⟨r, (st.updated[ad.key]?).getD 0⟩ := by
+  rw [rel_getRow hrel, h]; rfl
+
+/-- a stored row read back from a related store: record and `servers:updated` score -/
+theorem rel_row_back {st : RStore} {a : AbsState} (hrel : Rel st a) (k : Nat) (row : SRow)
+    (h : a.servers[k]? = some row) : st.items[k]? = some row.svr ∧ (st.updated[k]?).getD 0 = row.updatedAt := by
+  have h' := hrel.servers k
+  rw [h] at h'
+  cases hi : st.items[k]? with
+  | none => rw [hi] at h'; cases h'
+  | some r =>
+    rw [hi] at h'
+    simp only [Option.map_some, Option.some.injEq] at h'
+    subst h'
+    exact ⟨rfl, rfl⟩
+
+/-! ## `add` -/
+
+/-- **`add_fresh`** (clause "add stores a new record at version+1"): adding a record whose address has no row stores the
+caller's record with `version + 1` (version 1 for a new record, which has version 0) and update time `now` under its
+address, leaves every other row alone, consults no resolver, and returns the stored record. -/
+theorem add_fresh (a : AbsState) (now : Int) (svr : Server) (res : Resolver) (h : a.getRow svr.addr = none) :
+    a.add now svr res = ({ a with servers := a.servers.insert svr.addr.key ⟨stored svr, now⟩ }, .ok (stored svr)) := by
+  simp only [AbsState.add, h]; rfl
+
+/-- **`add_refused`** (clause "… or consults the resolver when the address exists (refusal reports 'exists' and changes
+nothing)"): adding a record whose address has a row consults the resolver *with the stored record* — whatever the two
+versions are: `add` does not compare versions — and when the resolver refuses the call fails with *exists* and the
+state is unchanged. -/
+theorem add_refused (a : AbsState) (now : Int) (svr : Server) (res : Resolver) (ex : SRow)
+    (h : a.getRow svr.addr = some ex) (hres : res ex.svr = none) :
+    a.add now svr res = (a, .error .serverExists) := by
+  simp only [AbsState.add, h, hres]
+
+/-- **`add_resolved`** (same clause, the resolver accepts): the record *the resolver returned* (not the caller's) is
+stored with its version + 1, under the resolved record's own address. -/
+theorem add_resolved (a : AbsState) (now : Int) (svr : Server) (res : Resolver) (ex : SRow) (r : Server)
+    (h : a.getRow svr.addr = some ex) (hres : res ex.svr = some r) :
+    a.add now svr res = ({ a with servers := a.servers.insert r.addr.key ⟨stored r, now⟩ }, .ok (stored r)) := by
+  simp only [AbsState.add, h, hres]; rfl
+
+/-! ## `update` -/
+
+/-- **`update_missing`** (clause "update on a missing address reports not-found"): the call fails with *not found*,
+nothing is stored (an update never creates a row) and the resolver is not consulted. -/
+theorem update_missing (a : AbsState) (now : Int) (svr : Server) (res : Resolver) (h : a.getRow svr.addr = none) :
+    a.update now svr res = (a, .error .serverNotFound) := by
+  simp only [AbsState.update, h]
+
+/-- **`update_current`** (clause "… and otherwise stores the caller's record at version+1"), with the boundary: when the
+stored version is **not newer** than the caller's — equal (the caller read the current record) *or older* (the
+specification, like the code, does not reject a caller from the future) — the caller's record is stored at its
+`version + 1` with update time `now`, and the resolver is not consulted. -/
+theorem update_current (a : AbsState) (now : Int) (svr : Server) (res : Resolver) (ex : SRow)
+    (h : a.getRow svr.addr = some ex) (hv : ex.svr.version ≤ svr.version) :
+    a.update now svr res = ({ a with servers := a.servers.insert svr.addr.key ⟨stored svr, now⟩ }, .ok (stored svr)) := by
+  have hv' : ¬ ex.svr.version > svr.version := by omega
+  simp only [AbsState.update, h, hv', if_false]; rfl
+
+/-- the equal-version boundary on its own: an update carrying exactly the stored version commits and the stored version
+goes up by one -/
+theorem update_equal_version (a : AbsState) (now : Int) (svr : Server) (res : Resolver) (ex : SRow)
+    (h : a.getRow svr.addr = some ex) (hv : ex.svr.version = svr.version) :
+    (a.update now svr res).2 = .ok (stored svr) ∧
+    (a.update now svr res).1.getRow svr.addr = some ⟨stored svr, now⟩ ∧
+    (stored svr).version = ex.svr.version + 1 := by
+  rw [update_current a now svr res ex h (by omega)]
+  refine ⟨rfl, ?_, by simp [stored, hv]⟩
+  show (a.servers.insert svr.addr.key ⟨stored svr, now⟩)[svr.addr.key]? = _
+  simp
+
+/-- **`update_newer_resolved`** (clause "consults the resolver exactly when the stored version is newer", the resolver
+accepts): an update carrying a version older than the stored one hands the *stored record* to the resolver and stores
+what the resolver returns at *its* `version + 1` (so one above the stored version when the resolver keeps the version
+field), under the resolved record's address; the caller's record is not stored.  (`update_refused` is the other arm:
+the resolver refuses ⇒ nothing changes and the stored record is returned without error.) -/
+theorem update_newer_resolved (a : AbsState) (now : Int) (svr : Server) (res : Resolver) (ex : SRow) (r : Server)
+    (h : a.getRow svr.addr = some ex) (hv : ex.svr.version > svr.version) (hres : res ex.svr = some r) :
+    a.update now svr res = ({ a with servers := a.servers.insert r.addr.key ⟨stored r, now⟩ }, .ok (stored r)) := by
+  simp only [AbsState.update, h, hv, if_true, hres]; rfl
+
+/-- "exactly when": whether the resolver's answer matters.  If the stored version is not newer, two resolvers give the
+same outcome; if it is newer, the outcome is a function of `res` applied to the stored record only. -/
+theorem update_resolver_exactly_when_newer (a : AbsState) (now : Int) (svr : Server) (res res' : Resolver) :
+    (∀ ex, a.getRow svr.addr = some ex → ex.svr.version > svr.version → res ex.svr = res' ex.svr) →
+    a.update now svr res = a.update now svr res' := by
+  intro hh
+  cases h : a.getRow svr.addr with
+  | none => rw [update_missing a now svr res h, update_missing a now svr res' h]
+  | some ex =>
+    by_cases hv : ex.svr.version > svr.version
+    · have e := hh ex h hv
+      simp only [AbsState.update, h, hv, if_true, e]
+    · rw [update_current a now svr res ex h (by omega), update_current a now svr res' ex h (by omega)]
+
+/-! ## `remove` -/
+
+/-- **`remove_missing`**: removing an address with no row is a no-op that succeeds -/
+theorem remove_missing (a : AbsState) (svr : Server) (res : Resolver) (h : a.getRow svr.addr = none) :
+    a.remove svr res = (a, .ok ()) := by
+  simp only [AbsState.remove, h]
+
+/-- **`remove_current`** (clause "remove deletes …"): when the stored version is not newer than the caller's the row of the
+caller's address is erased, the resolver is not consulted, every other row stays -/
+theorem remove_current (a : AbsState) (svr : Server) (res : Resolver) (ex : SRow)
+    (h : a.getRow svr.addr = some ex) (hv : ex.svr.version ≤ svr.version) :
+    a.remove svr res = ({ a with servers := a.servers.erase svr.addr.key }, .ok ()) := by
+  have hv' : ¬ ex.svr.version > svr.version := by omega
+  simp only [AbsState.remove, h, hv', if_false]
+
+/-- **`remove_defended`** (clause "… unless a newer version is defended by the resolver"): a remove carrying a version
+older than the stored one hands the stored record to the resolver; when the resolver refuses (defends the record) the
+state is unchanged — the row stays, at its stored version — and the call **still returns success** (nil), not an error:
+the caller cannot tell a defended remove from a performed one by the reply. -/
+theorem remove_defended (a : AbsState) (svr : Server) (res : Resolver) (ex : SRow)
+    (h : a.getRow svr.addr = some ex) (hv : ex.svr.version > svr.version) (hres : res ex.svr = none) :
+    a.remove svr res = (a, .ok ()) := by
+  simp only [AbsState.remove, h, hv, if_true, hres]
+
+/-- **`remove_newer_resolved`** (same clause, the resolver lets go): the row erased is the one of the *resolved*
+record's address (the caller's address for every address-preserving resolver) -/
+theorem remove_newer_resolved (a : AbsState) (svr : Server) (res : Resolver) (ex : SRow) (r : Server)
+    (h : a.getRow svr.addr = some ex) (hv : ex.svr.version > svr.version) (hres : res ex.svr = some r) :
+    a.remove svr res = ({ a with servers := a.servers.erase r.addr.key }, .ok ()) := by
+  simp only [AbsState.remove, h, hv, if_true, hres]
+
+/-! ## the same clauses for the Redis-level writer machine
+
+`W st clock op tok fresh` abbreviates the run `write_refines` speaks about: the writer machine of `op` run alone for 16
+commands.  Hypotheses are about the *store*; `a` is any specification state related to it (one always exists:
+`rel_absServers`). -/
+
+/-- the writer machine run alone (16 commands), as in `write_refines` -/
+abbrev W (st : RStore) (clock : Int) (kind : WKind) (svr : Server) (res : Resolver) (tok fresh : Nat) : RStore × Writer :=
+  runWriter st clock (Writer.start ⟨kind, svr, res⟩ tok) fresh 16
+
+/-- `add_fresh`, machine: no stored record under the key ⇒ reply `ok (stored svr)`; afterwards `servers:items` holds
+`stored svr` and `servers:updated` the clock under that key, and every other key's record and score are as before -/
+theorem add_fresh_machine {st : RStore} {a : AbsState} (hrel : Rel st a) (clock : Int) (svr : Server) (res : Resolver)
+    (tok fresh : Nat) (hno : st.locks[svr.addr.key]? = none) (h : st.items[svr.addr.key]? = none) :
+    (W st clock .add svr res tok fresh).2.pc = .done (.ok (some (stored svr))) ∧
+    (W st clock .add svr res tok fresh).1.items[svr.addr.key]? = some (stored svr) ∧
+    ((W st clock .add svr res tok fresh).1.updated[svr.addr.key]?).getD 0 = clock ∧
+    ∀ k, k ≠ svr.addr.key → (W st clock .add svr res tok fresh).1.items[k]? = st.items[k]? := by
+  have hr := add_refines hrel clock svr res tok fresh hno
+  rw [add_fresh a clock svr res (rel_getRow_none hrel _ h)] at hr
+  obtain ⟨h1, h2⟩ := hr
+  have hb := rel_row_back h1 svr.addr.key ⟨stored svr, clock⟩ (by
+    show (a.servers.insert svr.addr.key ⟨stored svr, clock⟩)[svr.addr.key]? = _
+    simp)
+  refine ⟨h2, hb.1, hb.2, fun k hk => ?_⟩
+  have e1 := h1.servers k
+  have e2 := hrel.servers k
+  have e3 : (a.servers.insert svr.addr.key ⟨stored svr, clock⟩)[k]? = a.servers[k]? := by
+    simp only [ExtTreeMap.getElem?_insert, compare_eq_iff_eq, if_neg (Ne.symm hk)]
+  change (a.servers.insert svr.addr.key ⟨stored svr, clock⟩)[k]? = _ at e1
+  rw [e3, e2] at e1
+  cases hi : (W st clock .add svr res tok fresh).1.items[k]? with
+  | none => rw [hi] at e1; cases hj : st.items[k]? with
+    | none => rfl
+    | some r => rw [hj] at e1; cases e1
+  | some r' => rw [hi] at e1; cases hj : st.items[k]? with
+    | none => rw [hj] at e1; cases e1
+    | some r =>
+      rw [hj] at e1
+      simp only [Option.map_some, Option.some.injEq, SRow.mk.injEq] at e1
+      rw [e1.1]
+
+/-- `add_refused`, machine: a stored record and a resolver refusing it ⇒ reply *exists*, and the store stands for the
+same registry as before -/
+theorem add_refused_machine {st : RStore} {a : AbsState} (hrel : Rel st a) (clock : Int) (svr : Server) (res : Resolver)
+    (tok fresh : Nat) (hno : st.locks[svr.addr.key]? = none) (r : Server)
+    (h : st.items[svr.addr.key]? = some r) (hres : res r = none) :
+    (W st clock .add svr res tok fresh).2.pc = .done (.error .exists) ∧ Rel (W st clock .add svr res tok fresh).1 a := by
+  have hr := add_refines hrel clock svr res tok fresh hno
+  rw [add_refused a clock svr res _ (rel_getRow_some hrel _ r h) hres] at hr
+  exact ⟨hr.2.2, hr.1⟩
+
+/-- `update_missing`, machine: no stored record ⇒ reply *not found*, same registry -/
+theorem update_missing_machine {st : RStore} {a : AbsState} (hrel : Rel st a) (clock : Int) (svr : Server) (res : Resolver)
+    (tok fresh : Nat) (hno : st.locks[svr.addr.key]? = none) (h : st.items[svr.addr.key]? = none) :
+    (W st clock .update svr res tok fresh).2.pc = .done (.error .notFound) ∧ Rel (W st clock .update svr res tok fresh).1 a := by
+  have hr := update_refines hrel clock svr res tok fresh hno
+  rw [update_missing a clock svr res (rel_getRow_none hrel _ h)] at hr
+  exact ⟨hr.2.2, hr.1⟩
+
+/-- `update_current`, machine: stored version ≤ caller's (equal included) ⇒ reply `ok (stored svr)` and the key holds the
+caller's record at version + 1 with the clock as its update score -/
+theorem update_current_machine {st : RStore} {a : AbsState} (hrel : Rel st a) (clock : Int) (svr : Server) (res : Resolver)
+    (tok fresh : Nat) (hno : st.locks[svr.addr.key]? = none) (r : Server)
+    (h : st.items[svr.addr.key]? = some r) (hv : r.version ≤ svr.version) :
+    (W st clock .update svr res tok fresh).2.pc = .done (.ok (some (stored svr))) ∧
+    (W st clock .update svr res tok fresh).1.items[svr.addr.key]? = some (stored svr) ∧
+    ((W st clock .update svr res tok fresh).1.updated[svr.addr.key]?).getD 0 = clock := by
+  have hr := update_refines hrel clock svr res tok fresh hno
+  rw [update_current a clock svr res _ (rel_getRow_some hrel _ r h) hv] at hr
+  obtain ⟨h1, h2⟩ := hr
+  have hb := rel_row_back h1 svr.addr.key ⟨stored svr, clock⟩ (by
+    show (a.servers.insert svr.addr.key ⟨stored svr, clock⟩)[svr.addr.key]? = _
+    simp)
+  exact ⟨h2, hb.1, hb.2⟩
+
+/-- `update_newer_resolved`, machine: stored version newer, resolver returns `r'` for the stored record ⇒ reply
+`ok (stored r')`, and `r'`'s key holds `stored r'` -/
+theorem update_newer_resolved_machine {st : RStore} {a : AbsState} (hrel : Rel st a) (clock : Int) (svr : Server)
+    (res : Resolver) (tok fresh : Nat) (hno : st.locks[svr.addr.key]? = none) (r r' : Server)
+    (h : st.items[svr.addr.key]? = some r) (hv : r.version > svr.version) (hres : res r = some r') :
+    (W st clock .update svr res tok fresh).2.pc = .done (.ok (some (stored r'))) ∧
+    (W st clock .update svr res tok fresh).1.items[r'.addr.key]? = some (stored r') ∧
+    ((W st clock .update svr res tok fresh).1.updated[r'.addr.key]?).getD 0 = clock := by
+  have hr := update_refines hrel clock svr res tok fresh hno
+  rw [update_newer_resolved a clock svr res _ r' (rel_getRow_some hrel _ r h) hv hres] at hr
+  obtain ⟨h1, h2⟩ := hr
+  have hb := rel_row_back h1 r'.addr.key ⟨stored r', clock⟩ (by
+    show (a.servers.insert r'.addr.key ⟨stored r', clock⟩)[r'.addr.key]? = _
+    simp)
+  exact ⟨h2, hb.1, hb.2⟩
+
+/-- `remove_defended`, machine: stored version newer and the resolver refuses ⇒ reply nil (`ok none`) and the store
+stands for the same registry — in particular the record is still there -/
+theorem remove_defended_machine {st : RStore} {a : AbsState} (hrel : Rel st a) (clock : Int) (svr : Server)
+    (res : Resolver) (tok fresh : Nat) (hno : st.locks[svr.addr.key]? = none) (r : Server)
+    (h : st.items[svr.addr.key]? = some r) (hv : r.version > svr.version) (hres : res r = none) :
+    (W st clock .remove svr res tok fresh).2.pc = .done (.ok none) ∧
+    Rel (W st clock .remove svr res tok fresh).1 a ∧
+    (W st clock .remove svr res tok fresh).1.items[svr.addr.key]? = some r := by
+  have hr := remove_refines hrel clock svr res tok fresh hno
+  have hg := rel_getRow_some hrel _ r h
+  rw [remove_defended a svr res _ hg hv hres] at hr
+  exact ⟨hr.2.2, hr.1, (rel_row_back hr.1 svr.addr.key _ hg).1⟩
+
+/-- `remove_current`, machine: stored version ≤ caller's ⇒ reply nil and the key has no record any more -/
+theorem remove_current_machine {st : RStore} {a : AbsState} (hrel : Rel st a) (clock : Int) (svr : Server)
+    (res : Resolver) (tok fresh : Nat) (hno : st.locks[svr.addr.key]? = none) (r : Server)
+    (h : st.items[svr.addr.key]? = some r) (hv : r.version ≤ svr.version) :
+    (W st clock .remove svr res tok fresh).2.pc = .done (.ok none) ∧
+    (W st clock .remove svr res tok fresh).1.items[svr.addr.key]? = none := by
+  have hr := remove_refines hrel clock svr res tok fresh hno
+  rw [remove_current a svr res _ (rel_getRow_some hrel _ r h) hv] at hr
+  refine ⟨hr.2.2, ?_⟩
+  have e := hr.1.servers svr.addr.key
+  change (a.servers.erase svr.addr.key)[svr.addr.key]? = _ at e
+  rw [ExtTreeMap.getElem?_erase_self] at e
+  cases hi : (W st clock .remove svr res tok fresh).1.items[svr.addr.key]? with
+  | none => rfl
+  | some x => rw [hi] at e; cases e
+
+/-! ### non-vacuity: every clause on the concrete one-row registry `demoState` (row: `demoServer` at version 1, t = 5) -/
+
+theorem demoState_row : demoState.getRow demoServer.addr = some ⟨{ demoServer with version := 1 }, 5⟩ := by
+  simp [demoState, AbsState.getRow, AbsState.save, demoServer]
+
+def otherServer : Server := { demoServer with addr := ⟨16843010, 10480⟩ }
+
+example : demoState.getRow otherServer.addr = none := by
+  simp [demoState, AbsState.getRow, AbsState.save, demoServer, otherServer, Addr.key]
+
+/-- `add_fresh` into the empty registry: version 1 -/
+example : (({} : AbsState).add 5 demoServer (fun _ => none)).2 = .ok { demoServer with version := 1 } := by
+  rw [add_fresh _ _ _ _ (by simp [AbsState.getRow])]; rfl
+
+/-- `add_refused`, `update_current` at the equal version 1, `update_newer_resolved` for the version-0 caller with the
+identity resolver (stored version 1 → 2), `remove_defended` for the version-0 caller -/
+example :
+    demoState.add 9 demoServer (fun _ => none) = (demoState, .error .serverExists) ∧
+    (demoState.update 9 { demoServer with version := 1 } (fun _ => none)).2 = .ok { demoServer with version := 2 } ∧
+    (demoState.update 9 demoServer some).2 = .ok { demoServer with version := 2 } ∧
+    demoState.remove demoServer (fun _ => none) = (demoState, .ok ()) :=
+  ⟨add_refused _ _ _ _ _ demoState_row rfl,
+   by rw [update_current demoState 9 { demoServer with version := 1 } (fun _ => none)
+        ⟨{ demoServer with version := 1 }, 5⟩ demoState_row (by decide)]; rfl,
+   by rw [update_newer_resolved demoState 9 demoServer some ⟨{ demoServer with version := 1 }, 5⟩
+        { demoServer with version := 1 } demoState_row (by decide) rfl]; rfl,
+   remove_defended _ _ _ _ demoState_row (by decide) rfl⟩
+
+end Swat4.C11
+
+/-! ### non-vacuity, continued: the remaining clauses and the machine corollaries -/
+namespace Swat4.C11
+open Swat4 Swat4.RStore Std
+
+/-- a resolver that answers with the stored record marked `info` (status bit 2 set) -/
+def markRes : Resolver := fun ex => some { ex with status := ex.status ||| 2#9 }
+
+/-- `add_resolved`, `update_missing`, `update_equal_version`, `remove_missing`, `remove_current`, `remove_newer_resolved`
+on `demoState` / the absent address of `otherServer`: every hypothesis is satisfiable -/
+example :
+    (demoState.add 9 demoServer markRes).2 = .ok { demoServer with version := 2, status := 6#9 ||| 2#9 } ∧
+    demoState.update 9 otherServer (fun _ => none) = (demoState, .error .serverNotFound) ∧
+    (demoState.update 9 { demoServer with version := 1 } (fun _ => none)).2 = .ok { demoServer with version := 2 } ∧
+    demoState.remove otherServer (fun _ => none) = (demoState, .ok ()) ∧
+    (demoState.remove { demoServer with version := 1 } (fun _ => none)).1.getRow demoServer.addr = none ∧
+    (demoState.remove demoServer some).1.getRow demoServer.addr = none := by
+  have hother : demoState.getRow otherServer.addr = none := by
+    simp [demoState, AbsState.getRow, AbsState.save, demoServer, otherServer, Addr.key]
+  refine ⟨?_, update_missing _ _ _ _ hother, ?_, remove_missing _ _ _ hother, ?_, ?_⟩
+  · rw [add_resolved demoState 9 demoServer markRes ⟨{ demoServer with version := 1 }, 5⟩
+      { demoServer with version := 1, status := 6#9 ||| 2#9 } demoState_row rfl]
+    rfl
+  · exact (update_equal_version demoState 9 { demoServer with version := 1 } (fun _ => none)
+      ⟨{ demoServer with version := 1 }, 5⟩ demoState_row rfl).1
+  · rw [remove_current demoState { demoServer with version := 1 } (fun _ => none) ⟨{ demoServer with version := 1 }, 5⟩
+      demoState_row (by decide)]
+    show (demoState.servers.erase demoServer.addr.key)[demoServer.addr.key]? = none
+    simp
+  · rw [remove_newer_resolved demoState demoServer some ⟨{ demoServer with version := 1 }, 5⟩ { demoServer with version := 1 }
+      demoState_row (by decide) rfl]
+    show (demoState.servers.erase demoServer.addr.key)[demoServer.addr.key]? = none
+    simp
+
+/-- the keyspace after `Add demoServer` at clock 5 run by the writer machine on the empty keyspace -/
+def demoStore : RStore := (W {} 5 .add demoServer (fun _ => none) 0 1).1
+
+/-- it stands for `demoState`, holds no lock cell on the key, and stores the version-1 record (`add_fresh_machine` applies
+to the empty keyspace) -/
+theorem demoStore_facts :
+    Rel demoStore demoState ∧ demoStore.locks[demoServer.addr.key]? = none ∧
+    demoStore.items[demoServer.addr.key]? = some (stored demoServer) := by
+  have hw := write_refines consistent_empty Swat4.rel_empty 5 ⟨.add, demoServer, fun _ => none⟩ 0 1 (by simp)
+  have hf := add_fresh_machine Swat4.rel_empty 5 demoServer (fun _ => none) 0 1 (by simp) (by simp)
+  refine ⟨?_, hw.2.2.2.2, hf.2.1⟩
+  have h2 := hw.2.1
+  have e : (specWrite {} 5 ⟨.add, demoServer, fun _ => none⟩).1 = demoState := by
+    rw [(specWrite_add {} 5 demoServer (fun _ => none)).1, add_fresh _ _ _ _ (by simp [AbsState.getRow])]
+    rfl
+  rw [e] at h2
+  exact h2
+
+/-- the machine corollaries' hypotheses are satisfiable on `demoStore`: a second `Add` is refused with *exists*, an
+`Update` at the stored version 1 commits version 2, a `Remove` carrying version 0 against a refusing resolver is
+defended (reply nil, record still there), an `Update` carrying version 0 with the identity resolver stores version 2 -/
+example :
+    (W demoStore 9 .add demoServer (fun _ => none) 1 2).2.pc = .done (.error .exists) ∧
+    (W demoStore 9 .update (stored demoServer) (fun _ => none) 1 2).2.pc = .done (.ok (some (stored (stored demoServer)))) ∧
+    (W demoStore 9 .remove demoServer (fun _ => none) 1 2).1.items[demoServer.addr.key]? = some (stored demoServer) ∧
+    (W demoStore 9 .update demoServer some 1 2).2.pc = .done (.ok (some (stored (stored demoServer)))) := by
+  obtain ⟨hrel, hno, hit⟩ := demoStore_facts
+  exact ⟨(add_refused_machine hrel 9 demoServer _ 1 2 hno _ hit rfl).1,
+    (update_current_machine hrel 9 (stored demoServer) _ 1 2 hno _ hit (Int.le_refl _)).1,
+    (remove_defended_machine hrel 9 demoServer _ 1 2 hno _ hit (by decide) rfl).2.2,
+    (update_newer_resolved_machine hrel 9 demoServer some 1 2 hno _ _ hit (by decide) rfl).1⟩
+
+end Swat4.C11
+
+namespace Swat4.C11
+open Swat4 Swat4.RStore Std
+
+/-- … `update_missing_machine` on the empty keyspace, `remove_current_machine` on `demoStore` -/
+example :
+    (W {} 5 .update demoServer (fun _ => none) 0 1).2.pc = .done (.error .notFound) ∧
+    (W demoStore 9 .remove (stored demoServer) (fun _ => none) 1 2).1.items[demoServer.addr.key]? = none := by
+  obtain ⟨hrel, hno, hit⟩ := demoStore_facts
+  exact ⟨(update_missing_machine Swat4.rel_empty 5 demoServer _ 0 1 (by simp) (by simp)).1,
+    (remove_current_machine hrel 9 (stored demoServer) _ 1 2 hno _ hit (Int.le_refl _)).2⟩
+
+end Swat4.C11
+
+/-! # Additions (review round 2): the read arms of the driver's `runCall` are the model's reads -/
+namespace Swat4.C11
+open Swat4 Swat4.RStore Std
+
+/-- **the driver's reads are the model's reads** (`Drv/StoreRun.lean` `runCall`, arms `get / filter / count / countby`,
+which inline `items[k]?`, `hmgetItems ∘ filterKeys`, `items.size` and the per-bit member counts): the reply string of each
+read arm is the rendering of `getM`, of the list `filter_eq_pred` speaks about, of `HLEN`, and of `countByM`; the state
+is untouched and the crash argument ignored.  So the function the differential run compares with the Go code on reads
+is the one `get_refines`, `filter_eq_pred`, `count_refines`, `countByStatus_refines` (and `C11_main`) are stated for. -/
+theorem driver_reads_are_model (s : Drv.SeqState) (crash : Drv.Crash) :
+    (∀ ad : Addr, Drv.runCall s (.get ad) crash = (s, Drv.renderGet (getM s.st ad), ["0:hget"])) ∧
+    (∀ fs : FilterSet, Drv.runCall s (.filter fs) crash =
+      (s, s!"ok:{Drv.renderServers (s.st.hmgetItems (s.st.filterKeys fs))}", ["0:pipe"])) ∧
+    Drv.runCall s .count crash = (s, s!"ok:{s.st.items.size}", ["0:hlen"]) ∧
+    Drv.runCall s .countby crash = (s, Drv.renderCounts (countByM s.st), ["0:exec"]) :=
+  ⟨fun ad => Drv.runCall_get s ad crash, fun fs => Drv.runCall_filter s fs crash, Drv.runCall_count s crash,
+   Drv.runCall_countby s crash⟩
+
+/-- … hence, on a consistent store related to the specification state `a`, the driver's read replies render the
+specification's `get`, a permutation of its `filter` (the rendering then sorts by address key), its `count` and its
+per-member `countByStatus` -/
+theorem driver_reads_refine {s : Drv.SeqState} {a : AbsState} (hc : Consistent s.st) (hrel : Rel s.st a) (crash : Drv.Crash) :
+    (∀ ad : Addr, (Drv.runCall s (.get ad) crash).2.1 = Drv.renderGet (a.get ad)) ∧
+    (∀ fs : FilterSet, ∃ l : List Server, l.Perm (a.filter fs) ∧
+      (Drv.runCall s (.filter fs) crash).2.1 = s!"ok:{Drv.renderServers l}") ∧
+    (Drv.runCall s .count crash).2.1 = s!"ok:{a.count}" ∧
+    (Drv.runCall s .countby crash).2.1 = Drv.renderCounts (Status.members.map a.countByStatus) :=
+  Drv.runCall_reads_refine hc hrel crash
+
+/-- non-vacuity: the empty driver state is consistent and related to the empty registry; `Get` renders *not found* -/
+example : (Drv.runCall ⟨{}, 0, 0⟩ (.get demoServer.addr) .none).2.1 = "err:notfound" := by
+  rw [(driver_reads_refine (s := ⟨{}, 0, 0⟩) consistent_empty Swat4.rel_empty .none).1]; rfl
 
 end Swat4.C11
